@@ -60,6 +60,9 @@ def build_tree():
     put('alt/www/only-alt.txt', b'ALT only' * 29)
     put('alt/www/sub/b.txt', b'ALT b in sub' * 31)
     put('alt/www2/a.txt', b'ALT SIBLING www2' * 37)
+    # a mirror beside the root that repeats the root's absolute path below itself (backup / chroot copy)
+    put('mirror' + os.path.join(base, 'www') + '/passwords.txt', b'MIRRORED passwords' * 41)
+    put('mirror' + os.path.join(base, 'www') + '/a.txt', b'MIRRORED a' * 43)
     return base, files
 
 
@@ -78,6 +81,11 @@ def names(maxseg, base):
                 body = sep.join(segs)
                 for lead in LEADS:
                     yield lead + body
+    # locations outside the root that contain the root's absolute path further down
+    for tail in ('passwords.txt', 'a.txt', 'sub/../a.txt'):
+        for lead in ('../', '/../', 'sub/../../', './../'):
+            yield lead + 'mirror' + root + '/' + tail
+            yield lead + 'mirror' + root + '//' + tail
     # very many segments: fillers that cancel out, then a step out of the root (or a file inside it)
     for count in (7, 31, 32, 33, 60, 63, 64, 65, 66, 100, 127, 128, 129, 300, 1025):
         for filler in ('./', 'sub/../', '//', 'sub/deep/../../', 'nope/../'):
